@@ -1400,6 +1400,34 @@ def _nesting(text):
     return max(m, run // 2, ifs)
 
 
+_FN_CACHE = {}
+
+
+def _fn_at(rel, line):
+    """name of the function of the repository source `rel` that contains `line` (panic sites are identified by
+    function, not by line number)"""
+    from rsparse import strip_comments
+    import inventory
+    if rel not in _FN_CACHE:
+        try:
+            src = strip_comments(open(os.path.join(os.environ.get("RSSL_REPO", "/repo"), rel), encoding="utf-8").read())
+        except OSError:
+            _FN_CACHE[rel] = None
+            return "?"
+        starts = [0]
+        for i, c in enumerate(src):
+            if c == "\n":
+                starts.append(i + 1)
+        _FN_CACHE[rel] = (starts, inventory.functions(src))
+    if _FN_CACHE[rel] is None:
+        return "?"
+    starts, funcs = _FN_CACHE[rel]
+    if line - 1 >= len(starts):
+        return "?"
+    fn = inventory.enclosing(funcs, starts[line - 1])
+    return fn[0] if fn else "?"
+
+
 class C08(Prop):
     id = "C08"
     gens = ["GenPanicSites", "GenLexer", "GenEvaluator", "GenNames", "GenBindings"]
@@ -1415,12 +1443,14 @@ class C08(Prop):
         "time: the watchdog (30 s on a debug build for inputs of at most 4 KB) stands in for 'a small polynomial of the input size'; the largest time seen is recorded",
     ]
 
+    # (known finding, source file, function, message): a panic is identified by where it is raised and what it says
     KNOWN_PANICS = [
-        ("struct-template-export", r"(hlsl/src/ast_generate|msl/src/generator)\.rs:\d+: not yet implemented: RootDefinition::StructTemplate"),
-        ("function-template-default-arguments", r"typer/src/typer/functions\.rs:\d+: not yet implemented: default template arguments"),
-        ("non-type-template-arguments", r"typer/src/typer/types\.rs:\d+: not yet implemented: Non-type template arguments"),
-        ("slot-arithmetic-overflow", r"ir/src/ir_module\.rs:\d+: attempt to (add|multiply) with overflow"),
-        ("non-resource-object-global", r"ir/src/ir_types\.rs:\d+: get_register_type called on non-root object types"),
+        ("struct-template-export", r"(hlsl/src/ast_generate|msl/src/generator)\.rs", "generate_root_definition", r"not yet implemented: RootDefinition::StructTemplate"),
+        ("function-template-default-arguments", r"typer/src/typer/functions\.rs", None, r"not yet implemented: default template arguments"),
+        ("non-type-template-arguments", r"typer/src/typer/types\.rs", "apply_template_type_substitution", r"not yet implemented: Non-type template arguments"),
+        ("slot-arithmetic-overflow", r"ir/src/ir_module\.rs", "process_definition", r"attempt to (add|multiply) with overflow"),
+        ("non-resource-object-global", r"ir/src/ir_types\.rs", "get_register_type", r"get_register_type called on non-root object types"),
+        ("declared-function-without-definition", r"(hlsl/src/ast_generate|msl/src/generator)\.rs", "generate_function_inner", r"called `Option::unwrap\(\)` on a `None` value"),
     ]
 
     def kind(self, case):
@@ -1445,8 +1475,12 @@ class C08(Prop):
 
     def known_class(self, case, impl, model):
         if impl.startswith("PANIC"):
-            for kid, pat in self.KNOWN_PANICS:
-                if re.search(pat, impl):
+            m = re.match(r"PANIC (\S+?):(\d+): (.*)", impl)
+            if not m:
+                return None
+            rel, line, msg = m.group(1), int(m.group(2)), m.group(3)
+            for kid, fpat, fn, mpat in self.KNOWN_PANICS:
+                if re.fullmatch(fpat, rel) and re.search(mpat, msg) and (fn is None or _fn_at(rel, line) == fn):
                     return kid
             return None
         if impl.startswith("TIMEOUT"):
